@@ -1,6 +1,6 @@
 //@unit builder
 //@include models/buildw.rs
-//@thread popen::make_pipe popen::set_inheritable Popen::create .popen .wait .drop_impl drop_glue_popen drop_glue_vec_popen .setup_communicate .join .capture .stream_stdout .stream_stderr .stream_stdin
+//@thread popen::make_pipe popen::set_inheritable Popen::create .popen .popen_releasing .wait .drop_impl drop_glue_popen drop_glue_vec_popen drop_glue_communicator drop_glue_opt_file communicate::communicate .communicate_start .read .setup_communicate .join .capture .stream_stdout .stream_stderr .stream_stdin
 
 //@source src/popen.rs
 use std::result;
@@ -289,7 +289,7 @@ impl Exec {
 //@end
 
 //@fn exec::Exec::join vis=pub world=mut
-    requires no_inheritable(old(w).s), self.stdin_data.is_none(), old(w).s.stages.len() < 0xffff_ffff, //[C16]
+    requires no_inheritable(old(w).s), no_parked(old(w).s), self.stdin_data.is_none(), old(w).s.stages.len() < 0xffff_ffff, //[C16]
     ensures
         r is Ok ==> final(w).s.stages.len() == old(w).s.stages.len() + 1 && final(w).s.stages.last().reaped, //[C12]
         r is Err ==> final(w).s == old(w).s,
@@ -327,6 +327,8 @@ impl Exec {
         r is Ok ==> stage_ok(r->Ok_0.1, final(w).s) && holds_no_pipe(r->Ok_0.1) && final(w).s.stages.len() == old(w).s.stages.len() + 1
             && r->Ok_0.1.detached == self.config.detached && r->Ok_0.1.child_state is Running && r->Ok_0.1.child_state->pid as int == old(w).s.stages.len()
             && final(w).s.stages.last().reaped == false && final(w).s.stages.last().detached == self.config.detached && final(w).s.stages.subrange(0, old(w).s.stages.len() as int) == old(w).s.stages,
+        // the Communicator holds the child's pipe ends: the library must not wait for the child while it is alive and unfinished
+        r is Ok ==> final(w).s.parked =~= old(w).s.parked.union(r->Ok_0.0.ends@) && final(w).s.inheritable == old(w).s.inheritable, //[C12]
         // an Exec with neither output configured gets its stdout piped, so capture() has something to read
         r is Ok ==> (self.config.stdout is None && self.config.stderr is None ==> r->Ok_0.0.out_piped@),
         r is Ok ==> r->Ok_0.0.out_piped@ == (self.config.stdout is Pipe || (self.config.stdout is None && self.config.stderr is None)) && r->Ok_0.0.err_piped@ == (self.config.stderr is Pipe),
@@ -334,16 +336,29 @@ impl Exec {
 //@end
 
 //@fn exec::Exec::communicate vis=pub world=mut
-    requires no_inheritable(old(w).s), old(w).s.stages.len() < 0xffff_ffff, self.stdin_data.is_some() == (self.config.stdin is Pipe),
+//@rreplace 1 /Ok\(comm\)/ => /proof { hand_over(w, comm.ends@); } Ok(comm)/
+    requires no_inheritable(old(w).s), no_parked(old(w).s), old(w).s.stages.len() < 0xffff_ffff, self.stdin_data.is_some() == (self.config.stdin is Pipe),
     ensures r is Err ==> final(w).s == old(w).s,
         r is Ok ==> final(w).s.stages.len() == old(w).s.stages.len() + 1 && final(w).s.stages.last().detached,
+        no_parked(final(w).s),
 //@end
 
 //@fn exec::Exec::capture vis=pub world=mut
-    requires no_inheritable(old(w).s), old(w).s.stages.len() < 0xffff_ffff, self.stdin_data.is_some() == (self.config.stdin is Pipe),
+// exit elaboration (Rust drops the locals of a frame in reverse order of declaration: `p`, then `comm`):
+//   shape A  `let (..) = comm.read()?;`                        on Err: p is dropped (waited for) while comm still holds the pipe ends
+//   shape B  `let captured = comm.read(); drop(comm); let (..) = captured?;`   on Err: only p is left
+//@rreplace ? /let \(maybe_out, maybe_err\) = comm\.read\(Tracked\(w\)\)\?;/ => /let (maybe_out, maybe_err) = match comm.read(Tracked(w)) { Ok(x_) => x_, Err(e_) => { drop_glue_popen(p, Tracked(w)); drop_glue_communicator(comm, Tracked(w)); return Err(PopenError::from(e_)); } };/
+//@rreplace ? /drop\(comm\);/ => /drop_glue_communicator(comm, Tracked(w));/
+//@rreplace ? /let \(maybe_out, maybe_err\) = captured\?;/ => /let (maybe_out, maybe_err) = match captured { Ok(x_) => x_, Err(e_) => { drop_glue_popen(p, Tracked(w)); return Err(PopenError::from(e_)); } };/
+//@forbid /comm\.read\(Tracked\(w\)\)\?/
+//@forbid /captured\?/
+    requires no_inheritable(old(w).s), no_parked(old(w).s), old(w).s.stages.len() < 0xffff_ffff, self.stdin_data.is_some() == (self.config.stdin is Pipe),
     ensures
         // capture returns only after the child has been waited for
         r is Ok ==> final(w).s.stages.len() == old(w).s.stages.len() + 1 && final(w).s.stages.last().reaped, //[C12]
+        // ... also when the exchange fails: the child started by capture is reaped unless detached (and nothing was waited for while the
+        // library still held the child's pipe ends: precondition of the waits)
+        final(w).s.stages.len() > old(w).s.stages.len() && !final(w).s.stages.last().detached ==> final(w).s.stages.last().reaped, //[C12]
 //@end
 }
 
@@ -440,14 +455,11 @@ impl Pipeline {
 
 //@fn pipeline::Pipeline::popen vis=pub world=mut
 //@selfmut
-//@rreplace 1 /this\s*\.cmds\s*\.into_iter\(\)\s*\.map\(\|cmd\| cmd\.stderr\(Redirection::RcFile\(Rc::clone\(&stderr_to\)\)\)\)\s*\.collect\(\)/ => /map_stderr(this.cmds, &stderr_to)/
-//@rreplace 1 /this\.cmds\.drain\(\.\.1\)\.next\(\)\.unwrap\(\)/ => /this.cmds.remove(0)/
-//@rreplace 1 /this\.cmds\.drain\(this\.cmds\.len\(\) - 1\.\.\)\.next\(\)\.unwrap\(\)/ => /this.cmds.pop().unwrap()/
-//@rreplace 1 /for \(idx, mut runner\) in this\.cmds\.into_iter\(\)\.enumerate\(\)/ => /let ghost cmds1 = this.cmds@; let ghost b = w.s.stages.len() as int; let mut idx: usize = 0; while idx < cnt/
-//@rreplace 1 /if idx != 0 \{/ => /let mut runner = this.cmds.remove(0); if idx != 0 {/
-//@rreplace 1 /Ok\(p\) => ret\.push\(p\),/ => /Ok(p) => { ret.push(p); idx += 1; }/
-//@rreplace 1 /return Err\(e\);/ => /drop_glue_vec_popen(ret, Tracked(w)); return Err(e);/
-//@rreplace ? /for i in 0\.\.ret\.len\(\)/ => /for i in it: 0..ret.len()/
+// Two shapes are supported, so that undoing the D13 repair shows up as a failed obligation and not as a lost anchor:
+//   (a) the whole body here (before the repair): then the loops below exist and the parked set cannot change;
+//   (b) `self.popen_releasing(&mut None)`: the body lives in popen_releasing (next block), the loops are absent here.
+//@include builder_popen_rewrites.inc
+//@rreplace ? /this\.popen_releasing\(&mut None, Tracked\(w\)\)/ => /{ let mut none_: Option<File> = None; this.popen_releasing(&mut none_, Tracked(w)) }/
 //@entry
         broadcast use given_lemmas;
 //@contract
@@ -455,84 +467,67 @@ impl Pipeline {
         inh_ok(old(w).s, self.stderr_file), //[C08]
         self.stdin_data.is_none(), cmds_ok(self.cmds@, self.stderr_file.is_some()), !(self.stdin is Merge),
         old(w).s.stages.len() + self.cmds@.len() < 0xffff_ffff,
-    ensures match r {
+        // whoever calls popen() must not itself be sitting on a pipe end the commands may block on: the commands started so far
+        // are waited for if a later one fails to start
+        no_parked(old(w).s), //[C12,C14]
+    ensures final(w).s.parked == old(w).s.parked, match r {
         Ok(v) => ({
-            let b = old(w).s.stages.len() as int; let n = self.cmds@.len() as int; let s = final(w).s.stages;
-            &&& v@.len() == n && s.len() == b + n && final(w).s.inheritable == old(w).s.inheritable
-            &&& forall|j: int| 0 <= j < b ==> (#[trigger] s[j]) == old(w).s.stages[j]
-            &&& forall|i: int| 0 <= i < n ==> {
-                    &&& running(#[trigger] v@[i], b + i) && v@[i].detached == self.cmds@[i].config.detached
-                    // the parent keeps nothing in between
-                    &&& (i < n - 1 ==> v@[i].stdout.is_none()) && (i > 0 ==> v@[i].stdin.is_none()) //[C13,C08]
-                    &&& (self.stderr_file.is_some() ==> v@[i].stderr.is_none()) && (self.stderr_file.is_none() ==> v@[i].stderr.is_some() == (self.cmds@[i].config.stderr is Pipe))
-                }
-            &&& forall|j: int| b <= j < b + n ==> {
-                    &&& (#[trigger] s[j]).detached == self.cmds@[j - b].config.detached && !s[j].reaped
-                    // the stages run the commands in order
-                    &&& s[j].argv == exec_argv(self.cmds@[j - b]) //[C13]
-                    // the shared standard-error sink receives every stage's error output
-                    &&& (self.stderr_file.is_some() ==> s[j].stderr == Given::Obj(self.stderr_file.unwrap().obj@)) //[C13]
-                }
-            // the pipeline's configured input reaches only the first command, its configured output receives only the last command's output
-            &&& s[b].stdin == given(self.stdin, v@[0].stdin) && (self.stdin is Pipe <==> v@[0].stdin.is_some()) //[C13]
-            &&& s[b + n - 1].stdout == given(self.stdout, v@[n - 1].stdout) && (self.stdout is Pipe <==> v@[n - 1].stdout.is_some()) //[C13]
-            // each command's standard output feeds exactly the next command's standard input
-            &&& chain_ok(s, b, b + n) //[C13]
+//@include builder_popen_ok.inc
         }),
         Err(e) => ({
-            let b = old(w).s.stages.len() as int; let n = self.cmds@.len() as int; let s = final(w).s.stages;
-            // no later command was started, and every command already started has been waited for (unless detached)
-            &&& b <= s.len() < b + n //[C14]
-            &&& forall|j: int| b <= j < s.len() ==> !(#[trigger] s[j]).detached ==> s[j].reaped //[C14]
-            &&& forall|j: int| 0 <= j < b ==> (#[trigger] s[j]).argv == old(w).s.stages[j].argv
+//@include builder_popen_err.inc
+        }),
+    }
+//@loop 0 optional
+        invariant
+            w.s.parked == old(w).s.parked, no_parked(w.s),
+//@include builder_popen_loop0.inc
+//@loop 1 optional
+        invariant
+            w.s.parked == old(w).s.parked, no_parked(w.s),
+//@include builder_popen_loop1.inc
+//@end
+
+//@fn pipeline::Pipeline::popen_releasing ifpresent world=mut
+//@selfmut
+//@include builder_popen_rewrites.inc
+// `release_on_failure.take();` drops the File at the end of the statement: it is closed before the wait
+//@rreplace 1 /release_on_failure\.take\(\);/ => /drop_glue_opt_file(release_on_failure.take(), Tracked(w));/
+//@entry
+        broadcast use given_lemmas;
+//@contract
+    requires
+        inh_ok(old(w).s, self.stderr_file), //[C08]
+        self.stdin_data.is_none(), cmds_ok(self.cmds@, self.stderr_file.is_some()), !(self.stdin is Merge),
+        old(w).s.stages.len() + self.cmds@.len() < 0xffff_ffff,
+        // the only pipe end the caller may be sitting on is the one it passes in to be released
+        parked_within(old(w).s, *old(release_on_failure)), //[C12,C14]
+    ensures
+        r is Ok ==> final(w).s.parked == old(w).s.parked && *final(release_on_failure) == *old(release_on_failure),
+        // on failure the end was closed BEFORE the started commands were waited for (precondition of the wait), and nothing is parked
+        r is Err ==> final(release_on_failure).is_none() && no_parked(final(w).s), //[C14]
+        match r {
+        Ok(v) => ({
+//@include builder_popen_ok.inc
+        }),
+        Err(e) => ({
+//@include builder_popen_err.inc
         }),
     }
 //@loop 0
         invariant
-            0 <= idx <= cnt, cnt == cmds1.len(), cnt == this.cmds@.len() + idx, cnt >= 2, cnt == self.cmds@.len(),
-            this.cmds@ == cmds1.subrange(idx as int, cnt as int),
-            ret@.len() == idx, b == old(w).s.stages.len(), b + cnt < 0xffff_ffff, w.s.inheritable == old(w).s.inheritable, inh_ok(w.s, self.stderr_file),
-            w.s.stages.len() == b + idx, forall|j: int| 0 <= j < b ==> (#[trigger] w.s.stages[j]) == old(w).s.stages[j],
-            // what the prepared commands look like
-            forall|i: int| 0 <= i < cnt ==> {
-                let c = #[trigger] cmds1[i]; let o = self.cmds@[i];
-                &&& c.command == o.command && c.args == o.args && c.stdin_data.is_none() && c.config.detached == o.config.detached
-                &&& c.config.stdin == (if i == 0 { self.stdin } else { Redirection::None })
-                &&& (i == cnt - 1 ==> c.config.stdout == self.stdout) && (i < cnt - 1 ==> c.config.stdout is None || c.config.stdout is Pipe)
-                &&& (self.stderr_file.is_some() ==> c.config.stderr is RcFile && c.config.stderr->RcFile_0.obj@ == self.stderr_file.unwrap().obj@) && (self.stderr_file.is_none() ==> c.config.stderr == o.config.stderr)
-            },
-            // the handles of what has been started so far
-            forall|i: int| 0 <= i < idx ==> {
-                let p = #[trigger] ret@[i];
-                &&& running(p, b + i) && p.detached == self.cmds@[i].config.detached
-                &&& (i > 0 ==> p.stdin.is_none()) && (i < idx - 1 ==> p.stdout.is_none())
-                &&& (self.stderr_file.is_some() ==> p.stderr.is_none()) && (self.stderr_file.is_none() ==> p.stderr.is_some() == (self.cmds@[i].config.stderr is Pipe))
-            },
-            // the stages started so far
-            forall|j: int| b <= j < b + idx ==> {
-                let st = #[trigger] w.s.stages[j];
-                &&& st.detached == self.cmds@[j - b].config.detached && !st.reaped && st.argv == exec_argv(self.cmds@[j - b])
-                &&& (j < b + idx - 1 ==> st.stdout is NewPipe)
-                &&& (self.stderr_file.is_some() ==> st.stderr == Given::Obj(self.stderr_file.unwrap().obj@))
-            },
-            // the last one still has its stdout pipe: the next command will read it
-            idx > 0 && idx < cnt ==> ret@[idx - 1].stdout.is_some() && w.s.stages[b + idx - 1].stdout == Given::NewPipe(ret@[idx - 1].stdout.unwrap().obj@),
-            idx > 0 ==> w.s.stages[b].stdin == given(self.stdin, ret@[0].stdin) && (self.stdin is Pipe <==> ret@[0].stdin.is_some()),
-            idx == cnt ==> w.s.stages[b + cnt - 1].stdout == given(self.stdout, ret@[cnt - 1].stdout) && (self.stdout is Pipe <==> ret@[cnt - 1].stdout.is_some()),
-            chain_ok(w.s.stages, b, b + idx),
-        decreases cnt - idx,
-//@loop 1 optional
+            w.s.parked == old(w).s.parked, *release_on_failure == *old(release_on_failure), parked_within(w.s, *release_on_failure),
+//@include builder_popen_loop0.inc
+//@loop 1
         invariant
-            w.s.inheritable == old(w).s.inheritable, ret@.len() == idx, it.iter.end == idx, idx < cnt, w.s.stages.len() == b + idx, b == old(w).s.stages.len(), cnt == self.cmds@.len(),
-            forall|j: int| 0 <= j < b ==> (#[trigger] w.s.stages[j]) == old(w).s.stages[j],
-            forall|j: int| b <= j < b + idx ==> (#[trigger] w.s.stages[j]).detached == ret@[j - b].detached && !w.s.stages[j].reaped,
-            forall|k: int| 0 <= k < ret@.len() ==> running(#[trigger] ret@[k], b + k),
-            forall|k: int| 0 <= k < i ==> holds_no_pipe(#[trigger] ret@[k]),
+            w.s.parked == old(w).s.parked, *release_on_failure == *old(release_on_failure), parked_within(w.s, *release_on_failure),
+//@include builder_popen_loop1.inc
 //@end
 
 //@fn pipeline::Pipeline::join vis=pub world=mut
 //@rreplace 1 /v\.last_mut\(\)\.unwrap\(\)\.wait\(Tracked\(w\)\)/ => /{ let ghost b_ = old(w).s.stages.len() as int; let r_ = v.last_mut().unwrap().wait(Tracked(w)); let ghost v1_ = v@; drop_glue_vec_popen(v, Tracked(w)); proof { assert forall|j: int| b_ <= j < w.s.stages.len() && !(#[trigger] w.s.stages[j]).detached implies w.s.stages[j].reaped by { assert(reaped_or_detached(v1_[j - b_], w.s)); } } r_ }/
     requires
+        no_parked(old(w).s),
         inh_ok(old(w).s, self.stderr_file), //[C08]
         self.stdin_data.is_none(), cmds_ok(self.cmds@, self.stderr_file.is_some()), !(self.stdin is Merge),
         old(w).s.stages.len() + self.cmds@.len() < 0xffff_ffff,
@@ -549,6 +544,7 @@ impl Pipeline {
 //@fn pipeline::Pipeline::stream_stdout vis=pub world=mut
 //@sreplace 1 /PopenResult<impl Read>/ => /PopenResult<ReadPipelineAdapter>/
     requires
+        no_parked(old(w).s),
         inh_ok(old(w).s, self.stderr_file), //[C08]
         self.stdin_data.is_none(), cmds_ok(self.cmds@, self.stderr_file.is_some()), !(self.stdin is Merge),
         old(w).s.stages.len() + self.cmds@.len() < 0xffff_ffff,
@@ -560,6 +556,7 @@ impl Pipeline {
 //@fn pipeline::Pipeline::stream_stdin vis=pub world=mut
 //@sreplace 1 /PopenResult<impl Write>/ => /PopenResult<WritePipelineAdapter>/
     requires
+        no_parked(old(w).s),
         inh_ok(old(w).s, self.stderr_file), //[C08]
         self.stdin_data.is_none(), cmds_ok(self.cmds@, self.stderr_file.is_some()), 
         old(w).s.stages.len() + self.cmds@.len() < 0xffff_ffff,
@@ -570,12 +567,19 @@ impl Pipeline {
 
 //@fn pipeline::Pipeline::setup_communicate world=mut
 //@selfmut
+// exit elaboration: if set_inheritable fails, `?` drops the two new pipe ends (closing them)
+//@rreplace 1 /crate::popen::set_inheritable\(&err_read, false, Tracked\(w\)\)\?;/ => /match popen_m::set_inheritable(&err_read, false, Tracked(w)) { Ok(_) => {}, Err(e_) => { drop_glue_opt_file(Some(err_read), Tracked(w)); return Err(PopenError::from(e_)); } }/
 //@rreplace + /crate::popen::/ => /popen_m::/
     requires
         no_inheritable(old(w).s), //[C08]
         cmds_ok(self.cmds@, true), self.stderr_file.is_none(), !(self.stdin is Merge), self.stdin_data.is_some() == (self.stdin is Pipe),
         old(w).s.stages.len() + self.cmds@.len() < 0xffff_ffff,
+        no_parked(old(w).s), //[C12,C14]
     ensures
+        // the Communicator holds the pipeline's pipe ends (stdin of the first, stdout of the last, the shared stderr pipe)
+        r is Ok ==> final(w).s.parked =~= r->Ok_0.0.ends@, //[C12]
+        // if the pipeline could not be started nothing is left behind, and nothing was waited for while a pipe end was still held
+        r is Err ==> no_parked(final(w).s), //[C14]
         r is Ok ==> ({
             let v = r->Ok_0.1@; let b = old(w).s.stages.len() as int; let n = self.cmds@.len() as int; let s = final(w).s.stages;
             &&& v.len() == n && s.len() == b + n && all_stage_ok(v, final(w).s)
@@ -591,10 +595,18 @@ impl Pipeline {
 //@end
 
 //@fn pipeline::Pipeline::capture vis=pub world=mut
+// exit elaboration (locals are dropped in reverse order of declaration: `v`, then `comm`):
+//   shape A  `let (out, err) = comm.read()?;`                                      on Err: v is dropped (its commands waited for) while comm still holds the pipe ends
+//   shape B  `let captured = comm.read(); drop(comm); let (out, err) = captured?;`  on Err: only v is left
 //@rreplace 1 /let status = v\[vlen - 1\]\.wait\(Tracked\(w\)\)\?;/ => /let status = match v[vlen - 1].wait(Tracked(w)) { Ok(s_) => s_, Err(e_) => { drop_glue_vec_popen(v, Tracked(w)); return Err(e_); } }; let ghost b_ = old(w).s.stages.len() as int; let ghost v1_ = v@; drop_glue_vec_popen(v, Tracked(w)); proof { assert forall|j: int| b_ <= j < w.s.stages.len() && !(#[trigger] w.s.stages[j]).detached implies w.s.stages[j].reaped by { assert(reaped_or_detached(v1_[j - b_], w.s)); } }/
-//@rreplace 1 /let \(out, err\) = comm\.read\(\)\?;/ => /let (out, err) = match comm.read() { Ok(x_) => x_, Err(e_) => { let ghost b_ = old(w).s.stages.len() as int; let ghost v1_ = v@; drop_glue_vec_popen(v, Tracked(w)); proof { assert forall|j: int| b_ <= j < w.s.stages.len() && !(#[trigger] w.s.stages[j]).detached implies w.s.stages[j].reaped by { assert(reaped_or_detached(v1_[j - b_], w.s)); } } return Err(PopenError::from(e_)); } };/
+//@rreplace ? /let \(out, err\) = comm\.read\(Tracked\(w\)\)\?;/ => /let (out, err) = match comm.read(Tracked(w)) { Ok(x_) => x_, Err(e_) => { let ghost b_ = old(w).s.stages.len() as int; let ghost v1_ = v@; drop_glue_vec_popen(v, Tracked(w)); proof { assert forall|j: int| b_ <= j < w.s.stages.len() && !(#[trigger] w.s.stages[j]).detached implies w.s.stages[j].reaped by { assert(reaped_or_detached(v1_[j - b_], w.s)); } } drop_glue_communicator(comm, Tracked(w)); return Err(PopenError::from(e_)); } };/
+//@rreplace ? /drop\(comm\);/ => /drop_glue_communicator(comm, Tracked(w));/
+//@rreplace ? /let \(out, err\) = captured\?;/ => /let (out, err) = match captured { Ok(x_) => x_, Err(e_) => { let ghost b_ = old(w).s.stages.len() as int; let ghost v1_ = v@; drop_glue_vec_popen(v, Tracked(w)); proof { assert forall|j: int| b_ <= j < w.s.stages.len() && !(#[trigger] w.s.stages[j]).detached implies w.s.stages[j].reaped by { assert(reaped_or_detached(v1_[j - b_], w.s)); } } return Err(PopenError::from(e_)); } };/
+//@forbid /comm\.read\(Tracked\(w\)\)\?/
+//@forbid /captured\?/
     requires
         no_inheritable(old(w).s), //[C08]
+        no_parked(old(w).s), //[C12,C14]
         cmds_ok(self.cmds@, true), self.stderr_file.is_none(), !(self.stdin is Merge), self.stdin_data.is_some() == (self.stdin is Pipe),
         old(w).s.stages.len() + self.cmds@.len() < 0xffff_ffff,
     ensures
@@ -626,11 +638,14 @@ impl Pipeline {
 //@fn pipeline::Pipeline::communicate vis=pub world=mut
 //@selfmut
 //@rreplace 1 /this\.cmds\.into_iter\(\)\.map\(\|cmd\| cmd\.detached\(\)\)\.collect\(\)/ => /map_detached(this.cmds)/
+//@rreplace 1 /Ok\(comm\)/ => /proof { hand_over(w, comm.ends@); } Ok(comm)/
     requires
         no_inheritable(old(w).s), //[C08]
+        no_parked(old(w).s),
         cmds_ok(self.cmds@, true), self.stderr_file.is_none(), !(self.stdin is Merge), self.stdin_data.is_some() == (self.stdin is Pipe),
         old(w).s.stages.len() + self.cmds@.len() < 0xffff_ffff,
     ensures
+        no_parked(final(w).s),
         // communicate() hands the children over to the caller's Communicator: all of them are detached, none is waited for here
         r is Ok ==> final(w).s.stages.len() == old(w).s.stages.len() + self.cmds@.len()
             && forall|j: int| old(w).s.stages.len() <= j < final(w).s.stages.len() ==> (#[trigger] final(w).s.stages[j]).detached,
